@@ -271,3 +271,15 @@ mut("C23", "R23.1", "ll-lists-left-recursive-in-case-2", PA + "transformation/ca
 mut("C23", "R23.1", "mutable-argument-swapped", PA + "generators/user_trait_generator.rs",
     "                                GrammarType::LLK => i == 0,\n                                GrammarType::LALR1 => i == member_count - 1,",
     "                                GrammarType::LLK => i == member_count - 1,\n                                GrammarType::LALR1 => i == 0,")
+# ---- batch 16/17 rules
+mut("C32", "R32.4", "k_concat-returns-other-for-eps", PA + "analysis/k_tuple.rs",
+    "            // Remove possible epsilon terminal\n            self.clear();", "            return *other;")
+mut("C07", "R07.6", "insert-without-lookup", PA + "analysis/k_decision.rs",
+    "            if let Some(found_dfa) = acc.remove(&nt) {\n                let united_dfa = found_dfa.unite(&dfa)?;\n                acc.insert(nt, united_dfa);\n            } else {\n                acc.insert(nt, dfa);\n            }",
+    "            acc.insert(nt, dfa);")
+mut("C26", "R26.7", "start-symbol-only-when-productions-exist", PA + "grammar/cfg.rs",
+    "        let mut set = BTreeSet::new();\n        set.insert(self.st.clone());", "        let mut set = BTreeSet::new();\n        if !self.pr.is_empty() {\n            set.insert(self.st.clone());\n        }")
+mut("C20", "R20.6", "start-production-push-result-dropped", PT,
+    "        self.push_production(tree_builder, prod_num)?;\n\n        'WHILE:", "        let _ = self.push_production(tree_builder, prod_num);\n\n        'WHILE:")
+mut("C02", "R02.7", "close-only-for-non-empty-productions", PT,
+    "            // And we close the production subtree\n            tree_builder.close_non_terminal()?;", "            // And we close the production subtree\n            if l > 0 {\n                tree_builder.close_non_terminal()?;\n            }")
